@@ -19,10 +19,11 @@ import (
 
 	"github.com/go-python/gpython/zzverif/harness"
 
+	_ "github.com/go-python/gpython/zzverif/engines/compiledet"
+	_ "github.com/go-python/gpython/zzverif/engines/containers"
 	_ "github.com/go-python/gpython/zzverif/engines/gens"
 	_ "github.com/go-python/gpython/zzverif/engines/imports"
 	_ "github.com/go-python/gpython/zzverif/engines/lifecycle"
-	_ "github.com/go-python/gpython/zzverif/engines/compiledet"
 	_ "github.com/go-python/gpython/zzverif/engines/repl"
 	_ "github.com/go-python/gpython/zzverif/engines/scope"
 	_ "github.com/go-python/gpython/zzverif/engines/srcfault"
@@ -44,12 +45,16 @@ var props = map[string]propCfg{
 	"C05": {Engines: []string{"gens"}, QuickRuns: 30000, QuickSecs: 60, ThoroughRuns: 3000000, ThoroughSecs: 1200, Level: "exploration"},
 	"C19": {Engines: []string{"imports"}, QuickRuns: 20000, QuickSecs: 60, ThoroughRuns: 2000000, ThoroughSecs: 1200, Level: "exploration"},
 	"C20": {Engines: []string{"repl"}, QuickRuns: 20000, QuickSecs: 60, ThoroughRuns: 2000000, ThoroughSecs: 1200, Level: "exploration"},
+	"C17": {Engines: []string{"containers"}, QuickRuns: 30000, QuickSecs: 60, ThoroughRuns: 3000000, ThoroughSecs: 1200, Level: "exploration"},
 	"C09": {Engines: []string{"lifecycle"}, QuickRuns: 40000, QuickSecs: 40, ThoroughRuns: 3000000, ThoroughSecs: 900, Level: "exploration"},
 }
 
 func main() {
 	if len(os.Args) < 2 {
 		usage()
+	}
+	if k, err := harness.LoadKnown(filepath.Join(verifDir(), "known_findings.json")); err == nil {
+		harness.SetKnown(k)
 	}
 	switch os.Args[1] {
 	case "check":
@@ -89,9 +94,9 @@ func envSeed() uint64 {
 // ---------------------------------------------------------------- work
 
 type foundViolation struct {
-	Index     int                `json:"index"`
-	Scenario  json.RawMessage    `json:"scenario"`
-	Violation harness.Violation  `json:"violation"`
+	Index     int                 `json:"index"`
+	Scenario  json.RawMessage     `json:"scenario"`
+	Violation harness.Violation   `json:"violation"`
 	All       []harness.Violation `json:"all"`
 }
 
@@ -340,19 +345,19 @@ func cmdCheck(args []string) int {
 
 	// 2. seeded exploration
 	type engineSummary struct {
-		Name        string                 `json:"engine"`
-		Evaluations int64                  `json:"evaluations"`
-		Distinct    int                    `json:"distinct_nontrivial"`
-		Steps       int64                  `json:"scheduler_steps"`
-		Switches    int64                  `json:"context_switches"`
-		Capped      int64                  `json:"capped_runs"`
-		Probes      map[string]int64       `json:"probes"`
-		Faults      map[string]int64       `json:"faults_fired"`
-		WallS       float64                `json:"wall_s"`
-		RunsPerHour float64                `json:"runs_per_hour"`
-		Info        harness.EngineInfo     `json:"info"`
-		Samples     []json.RawMessage      `json:"-"`
-		DetChecked  int                    `json:"determinism_runs_compared"`
+		Name        string             `json:"engine"`
+		Evaluations int64              `json:"evaluations"`
+		Distinct    int                `json:"distinct_nontrivial"`
+		Steps       int64              `json:"scheduler_steps"`
+		Switches    int64              `json:"context_switches"`
+		Capped      int64              `json:"capped_runs"`
+		Probes      map[string]int64   `json:"probes"`
+		Faults      map[string]int64   `json:"faults_fired"`
+		WallS       float64            `json:"wall_s"`
+		RunsPerHour float64            `json:"runs_per_hour"`
+		Info        harness.EngineInfo `json:"info"`
+		Samples     []json.RawMessage  `json:"-"`
+		DetChecked  int                `json:"determinism_runs_compared"`
 	}
 	var summaries []engineSummary
 	var allSamples []interface{}
